@@ -259,7 +259,7 @@ DYN = {
 
 def dyn_cases():
   for name in DYN:
-    for sname in ('False', 'True', 'list_dyn', 'set_other'):
+    for sname in ('False', 'True', 'list_dyn', 'set_other', 'list_naming_known', 'tuple_naming_known'):
       for pre in (False, True):
         yield ['dyn', name, sname, pre]
 
@@ -268,7 +268,10 @@ def run_dyn_case(case, res):
   _, name, sname, pre = case
   desc = list(case)
   skip = {'False': False, 'True': True, 'list_dyn': ['c15mod.nofn', 'other.fn', 'c15mod.nog'],
-          'set_other': {'zzz'}}[sname]
+          'set_other': {'zzz'},
+          # naming a configurable that IS resolvable must not make it skippable ("unknown AND listed")
+          'list_naming_known': ['c15mod.fn', 'c15mod.known', 'c15mod.nofn', 'other.fn', 'c15mod.nog'],
+          'tuple_naming_known': ('c15mod.fn', 'c15mod.known', 'c15mod.g')}[sname]
   text, known, exp = DYN[name]
   harness.hard_reset()
   for k in [k for k in sys.modules if k == 'c15mod']:
